@@ -469,10 +469,31 @@ func (en *Engine) VerifyFunc(fc *FuncContract) (res *FuncResult) {
 		fr.pkg = en.typesPkg(fc.PkgPath)
 	}
 	st := &State{pc: True, cells: map[int]Val{}, heaps: map[string]Term{}, alloc: top.alloc0, ghost: map[string]Val{}}
+	if fc.IsClosure {
+		for i := range fn.Params {
+			fc.Params = append(fc.Params[:i:i], fn.Params[i].Name())
+		}
+	}
 	if len(fn.Params) != len(fc.Params) {
 		panic(contractErr(fmt.Sprintf("%s: contract header has %d parameters (incl. receiver), function has %d", fc.Key, len(fc.Params), len(fn.Params))))
 	}
 	sc := &Scope{fr: fr, st: st, vars: map[string]Val{}, entry: map[string]Val{}, pkg: fr.pkg}
+	// captured variables of a function literal: cells with arbitrary well-formed content
+	for _, fv := range fn.FreeVars {
+		pt, ok := fv.Type().(*types.Pointer)
+		if !ok {
+			panic(unsupported("free variable that is not a captured cell"))
+		}
+		top.ncell++
+		id := top.ncell
+		top.cellT[id] = pt.Elem()
+		v := fr.fresh("cap_"+fv.Name(), pt.Elem())
+		fr.assumeWF(st, v)
+		st.cells[id] = v
+		fr.binds = append(fr.binds, Val{K: KCellPtr, T: fv.Type(), Cell: id})
+		sc.vars[fv.Name()] = v
+		sc.entry[fv.Name()] = v
+	}
 	for i, p := range fn.Params {
 		v := fr.fresh("in_"+fc.Params[i], p.Type())
 		fr.assumeWF(st, v)
@@ -579,6 +600,18 @@ func (fr *Frame) loopScope(st *State, loopAlloc Term, entry ...*State) *Scope {
 		for i, p := range fr.fc.Params {
 			if i < len(fr.params) {
 				sc.entry[p] = fr.params[i]
+			}
+		}
+		if fr.fc.IsClosure && fr.parent == nil {
+			for i, fv := range fr.fn.FreeVars {
+				if i < len(fr.binds) && fr.binds[i].K == KCellPtr {
+					if v, ok := st.cells[fr.binds[i].Cell]; ok {
+						sc.vars[fv.Name()] = v
+					}
+					if v, ok := fr.entry.cells[fr.binds[i].Cell]; ok {
+						sc.entry[fv.Name()] = v
+					}
+				}
 			}
 		}
 	}
